@@ -71,6 +71,7 @@ def model(v, tier):
     jobs.append(("Group_2g.cfg", "Group_2g.cfg", "pass", None, 4, "3g", 900))
     if not quick:
         jobs.append(("Group_2gt.cfg", "Group_2gt.cfg", "pass", None, 8, "8g", 2400))
+        jobs.append(("Group_2glive.cfg", "Group_2glive.cfg", "pass", None, 4, "4g", 1500))
         jobs.append(("Group_live2.cfg", "Group_live2.cfg", "pass", None, 2, "3g", 1500))
         jobs.append(("Group_gen.cfg", "Group_gen.cfg", "pass", None, 8, "8g", 2400))
         jobs.append(("Group_async.cfg", "Group_async.cfg", "pass", None, 6, "6g", 2400))
